@@ -212,6 +212,16 @@ func packetLen(src []byte) (int, bool) {
 	return 0, false
 }
 
+// canonHeader re-encodes the remaining length of a complete packet minimally.
+func canonHeader(b []byte) []byte {
+	plen, ok := packetLen(b)
+	if !ok || plen != len(b) {
+		return b
+	}
+	body := b[plen-bodyLen(b):]
+	return refFixed(int(b[0]>>4), b[0]&0xf, body)
+}
+
 func packetIDOnWire(kind int, b []byte) int {
 	plen, ok := packetLen(b)
 	if !ok || plen > len(b) {
@@ -472,6 +482,7 @@ func corpus() []corpusCase {
 		dec(12, 0xc0, 0x80),                                           //
 		dec(4, 0x40, 0x02, 0x00, 0x07, 0xde, 0xad),                     // trailing bytes: dbuf must be the packet only
 		dec(4, 0x40, 0x03, 0x00, 0x07, 0x01),                           // PUBACK with remaining length 3
+		dec(14, 0xe0, 0x80, 0x00),                                      // non-minimal remaining length must re-encode unchanged
 		dec(14, 0xe0, 0x02, 0x01, 0x02),                                // DISCONNECT with a body
 		dec(10, 0xa2, 0x11, 0x00, 0x09, 0, 1, 'a', 0, 1, 'b', 0, 1, 'c', 0, 1, 'd', 0, 1, 'e'), // 5 one-letter topics
 		dec(8, 0x82, 0x06, 0x00, 0x01, 0x00, 0x01, 'a'),                // SUBSCRIBE without the QoS byte
